@@ -62,6 +62,7 @@ Lemma main_stepB ch s s' : Inv c s -> InvA c s -> InvB c s -> main_step c ch s =
 Proof.
   intros HI HA HB H. old HI. oldA HA. oldB HB. unfold WB in *. main_cases c Hl s H.
   all: constructor; unfold WB; projs; realign.
+  all: try rewrite ?Hclosed.
   all: try match goal with |- context [after_submit c ?n] => destruct (after_submit_cases n) as [Eas|[Eas|Eas]]; rewrite ?Eas end.
   all: cbn [mtarget mnotify m2].
   all: try solve [assumption | reflexivity | discriminate | intros; discriminate].
@@ -151,6 +152,7 @@ Proof.
   all: try (exfalso; apply Hmem; apply Arm; assumption).
   all: try (rewrite (Acr k Hk) in Hcrash; discriminate Hcrash).
   all: constructor; unfold WB; projs; realign.
+  all: try rewrite ?Hclosed.
   (* b_tgt *)
   all: try solve [intros T; destruct (Btgt T) as (T1 & T2 & T3 & T4); updw_cases; projs; rewrite ?In_snoc;
                   first [ congruence | repeat split; auto; intros [X|X]; [tauto|congruence] | repeat split; auto ]].
@@ -165,7 +167,22 @@ Proof.
                   [ split; [|right; reflexivity]; destruct (w_ev (ws s k)) eqn:Ee; [|reflexivity];
                     pose proof (Bev Hc Hn _ Hk Ee) as X; rewrite Hpc in X; discriminate X
                   | destruct Hin as [Hin|Hin]; [|congruence]; apply Bidle; assumption ]].
-  all: match goal with Hpc : w_pc _ = ?p |- ?G => idtac "REMAINS:" p G end.
-Admitted.
+  (* b_wait *)
+  all: try solve [intros i Hi Hp He; updw_cases; projs; try discriminate;
+                  try solve [ destruct (Bwait _ Hi Hp He) as [[E T]|(Hin & Hc & Hne & H2)];
+                              [ left; split; assumption | right; rewrite ?In_snoc; repeat split; auto ] ];
+                  try solve [ destruct Wk as [X|[Hin Hc]]; [congruence|];
+                              pose proof (worker_cs_excl_m c s k Hl HI Hk) as M; rewrite Hpc in M; specialize (M eq_refl);
+                              right; split; [exact Hin|]; split; [exact Hc|]; split;
+                              [ intros E; rewrite E in M; discriminate M | intros X; destruct (m_pc (mn s)); discriminate ] ] ].
+  (* b_wcs *)
+  all: try solve [intros i Hi; pose proof (Bwcs i Hi) as W; updw_cases; projs;
+                  try solve [ exact W ];
+                  try solve [ destruct (w_pc (ws s i)) eqn:Hwi; try exact I; try exact W; rewrite In_snoc; tauto ];
+                  try solve [ exact I | reflexivity | assumption | left; reflexivity | left; assumption
+                            | right; split; [apply In_snoc; right; reflexivity | assumption]
+                            | right; split; assumption
+                            | apply Opost; [assumption | rewrite Hpc; reflexivity] ] ].
+Qed.
 
 End Locked.
